@@ -155,3 +155,52 @@ Section LeafStore.
       f_equal. f_equal. change (take_str (pred cap) s) with (firstn (pred cap) s). f_equal. lia.
   Qed.
 End LeafStore.
+
+(* ======================================================================== *)
+(* B. the callbacks of one dispatch, level by level (C04)                      *)
+(* ======================================================================== *)
+(* the text a matching port appends to loc is the expansion of its name that the
+   address spells (TreeProofs.app_is_matched) *)
+Lemma sub_app_of : forall cs x rest,
+  cs <> [] -> Forall dcomp cs -> In x (expand (comps_segs cs)) ->
+  app_of (flatten (comps_segs cs) ++ []) (x ++ rest) rest = x.
+Proof.
+  intros cs x rest Hne Hc Hx.
+  destruct (comps_expand cs Hne x Hx) as [y [Hy ->]].
+  pose proof (comps_conv_wf cs Hc) as Hw.
+  set (p := {| segs := map conv (comps_conv cs); subtree := true; types := None |}).
+  assert (Hr : flatten (comps_segs cs) ++ [] = PatSpec.render p).
+  { unfold PatSpec.render, render_tail, p. cbn [segs subtree types render_types app].
+    rewrite render_conv, (comps_flatten cs Hne), !app_nil_r. reflexivity. }
+  assert (Hwf : wf_pat p).
+  { unfold wf_pat, p. cbn [segs subtree types]. repeat split;
+      [apply conv_seg_ok; exact Hw | apply conv_enum_sep; exact Hw | intros E; discriminate]. }
+  assert (Ha : no_alt p).
+  { unfold no_alt, p. cbn [segs]. apply Forall_forall. intros s Hs. destruct s; try exact I.
+    exact (conv_no_alt _ _ Hs). }
+  assert (Sp : path_spec p ((y ++ [47]) ++ rest) rest).
+  { unfold path_spec, p. cbn [subtree segs]. exists y. split; [apply expand_spells; assumption|].
+    rewrite <- app_assoc. reflexivity. }
+  destruct (app_is_matched p _ _ Hwf Ha Sp) as [Em _]. rewrite Hr.
+  apply app_inv_tail in Em. symmetry. exact Em.
+Qed.
+
+Lemma leaf_app_of : forall sg tys a,
+  dsegs_wf sg -> last_not_slash (map conv sg) -> types_ok tys -> In a (expand sg) ->
+  app_of (flatten sg ++ render_types tys) a [] = a.
+Proof.
+  intros sg tys a Hw Hl Ht Ha.
+  set (p := {| segs := map conv sg; subtree := false; types := tys |}).
+  assert (Hr : flatten sg ++ render_types tys = PatSpec.render p).
+  { unfold PatSpec.render, render_tail, p. cbn [segs subtree types app]. rewrite render_conv. reflexivity. }
+  assert (Hwf : wf_pat p).
+  { unfold wf_pat, p. cbn [segs subtree types]. repeat split;
+      [apply conv_seg_ok; exact Hw | apply conv_enum_sep; exact Hw | intros _; exact Hl | exact Ht]. }
+  assert (Hna : no_alt p).
+  { unfold no_alt, p. cbn [segs]. apply Forall_forall. intros s Hs. destruct s; try exact I.
+    exact (conv_no_alt _ _ Hs). }
+  assert (Sp : path_spec p a []).
+  { unfold path_spec, p. cbn [subtree segs]. split; [apply expand_spells; assumption | reflexivity]. }
+  destruct (app_is_matched p _ _ Hwf Hna Sp) as [Em _]. rewrite Hr.
+  rewrite app_nil_r in Em. symmetry. exact Em.
+Qed.
